@@ -105,7 +105,7 @@ def run(scn) -> RunResult:
             if k1 != "ok":
                 raise RuntimeError(f"reference save failed: {k1} {v1!r}")
             new_image = pw.disk.image(PATH)
-            ops = [ev for ev in pw.disk.journal[j0:] if ev[0] in ("open", "write", "close", "rename")]
+            ops = [ev for ev in pw.disk.journal[j0:] if ev[0] in ("open", "write", "close", "rename", "truncate")]
             nops = pw.disk.nops - base_ops
             h.update(pw.elog.digest().encode())
         finally:
